@@ -237,6 +237,9 @@ def run_shard(spec):
                                       'write([fv, true][0]); write([ci, bv][0]); write([cb, 1, iv is byte][2]);')))
     for tag, tsrc, targs in memprogs.cases(spec['seed'], 0)[:3]:
         progs.append((None, targs, tsrc))
+    if spec['seed'] % 4 == 1:
+        # programs that define their own overloads of builtin names: compiled repeatedly in one process and in fresh ones
+        progs += [(None, None, bsrc) for btag, bsrc, ok in T.builtin_cases() if ok]
     # the templates in which the exact stack size decides (exact-fit dynamic arrays, write(int) as deepest point): all of them, spread over the shards
     tight = [(tag, tsrc, targs) for tag, tsrc, targs in memprogs.cases(0, 0) if tag.startswith(('exact-fit', 'write-deepest'))]
     tight.sort(key=lambda c: (c[0], c[2]))
